@@ -428,3 +428,36 @@ func TestC02Slicing(t *testing.T) {
 		})
 	})
 }
+
+// TestC02Interleaved — two or three keep-alives interleaved at every store call still charge exactly what a
+// one-at-a-time execution charges (the manager keeps no per-update state that another update could disturb).
+func TestC02Interleaved(t *testing.T) {
+	rec := vt.For("C02")
+	rec.Rule("interleaving (harness-owned scheduler): keep-alives of two light clients with different elapsed times (and optionally of a host) that bill the same hosts are interleaved at every store call by rapid draws, on memory/badger, prices 1..777777; oracle: all balances afterwards equal those of some one-at-a-time order (exact serial executions on an identical pool), i.e. each client is debited exactly its own elapsed x price per peer; non-trivial = the schedule interleaves two updates; distinct by config + schedule")
+	rapid.Check(t, func(rt *rapid.T) {
+		rapid.SyncTest(rt, func(rt *rapid.T) {
+			cfg := sessCfg{Driver: rapid.SampledFrom([]string{"memory", "memory", "badger"}).Draw(rt, "driver"), Price: big.NewInt(int64(rapid.SampledFrom([]int{1, 1000, 777777}).Draw(rt, "price"))), Interval: time.Minute, Yield: true}
+			ops := []serOp{{"update", 2, "keepalive(c2)"}, {"update", 3, "keepalive(c3)"}}
+			if rapid.Bool().Draw(rt, "withHost") {
+				ops = append(ops, serOp{"hostUpdate", 0, "keepalive(h0)"})
+			}
+			var pre []string
+			if rapid.Bool().Draw(rt, "hostLinked") {
+				pre = append(pre, "linkH0")
+			}
+			res := runSer(rt, cfg, pre, ops, nil)
+			if res.matched == "" {
+				rt.Fatalf("%s", res.report)
+			}
+			interleaved := false
+			for i := 1; i+1 < len(res.trace); i++ {
+				if strings.Split(res.trace[i], "@")[0] != strings.Split(res.trace[i-1], "@")[0] {
+					interleaved = true
+				}
+			}
+			rec.Case(fmt.Sprintf("interleaved|%s|%v|%v", cfg.String(), pre, res.trace), interleaved, []string{"interleaved"}, func() interface{} {
+				return map[string]interface{}{"kind": "interleaved keep-alives", "config": cfg.String(), "schedule": res.trace, "equivalent_serial_order": res.matched}
+			})
+		})
+	})
+}
